@@ -486,6 +486,19 @@ pub fn modea_rule(name: &str) -> String {
 pub fn c07_check(tier: Tier) -> Outcome {
     let mut out = Outcome::new("C07", "model_checking");
     // the wall-clock cells of the real-Server part run concurrently with the simulated part
+    // the bundled client is a transfer too: its peer vanishes for good in the middle of a download / an upload (relay that
+    // lets nothing through any more): it must give up after a bounded number of 1-second timeouts
+    let mut vanish = vec![];
+    for single in [false, true] {
+        let mut s = crate::loopback::SrvCfg::basic();
+        s.single = single;
+        s.overwrite = true;
+        for upload in [false, true] {
+            vanish.push(json!({"srv": s.to_json(), "upload": upload, "drop": 0, "silent_from": if upload { 4 } else { 5 }, "property": "C07", "len": 1300}));
+        }
+    }
+    let nvanish = vanish.len();
+    let hv = std::thread::spawn(move || run_cells("c14_relay", vanish, &crate::pool_opts(Tier::Quick)));
     let e2 = crate::c07_e2::cells(tier == Tier::Thorough);
     let ne2 = e2.len();
     let h = std::thread::spawn(move || run_cells("c07_e2", e2, &crate::pool_opts(Tier::Quick)));
@@ -493,7 +506,10 @@ pub fn c07_check(tier: Tier) -> Outcome {
     if let Ok(res) = h.join() {
         out.absorb(res, ne2);
     }
-    out.rule = format!("{} PLUS the real Server on loopback (both port modes): the peer's ERROR after k = 0..4 steps of a lock-step download, a windowed download and an upload must end the transfer thread at once with nothing emitted afterwards; silence after DATA(1) of a plain RRQ must produce a retransmission after the default 5 s (not earlier, and not never); with timeout=1 a silent peer makes a download and an upload give up within 16 s (wall clock, measured).", modea_rule("termination monitors T1-T5; plus the silence family = all-Timeout from every point of the fault-free run, the error family = ERROR at every point (handshake included), and the noise family = k = 0..9 non-progress answers of one kind followed by silence"));
+    if let Ok(res) = hv.join() {
+        out.absorb(res, nvanish);
+    }
+    out.rule = format!("{} PLUS the real Server on loopback (both port modes): the peer's ERROR after k = 0..4 steps of a lock-step download, a windowed download and an upload must end the transfer thread at once with nothing emitted afterwards; silence after DATA(1) of a plain RRQ must produce a retransmission after the default 5 s (not earlier, and not never); with timeout=1 a silent peer makes a download and an upload give up within 16 s (wall clock, measured); the bundled client (-t 1) whose server vanishes for good after the first data block returns within 25 s in both directions.", modea_rule("termination monitors T1-T5; plus the silence family = all-Timeout from every point of the fault-free run, the error family = ERROR at every point (handshake included), and the noise family = k = 0..9 non-progress answers of one kind followed by silence"));
     out.assumptions = vec!["the socket read timeout equals the worker timeout, as Server configures it".into(), "bounded retry is accepted up to 16 consecutive timeouts (the statement only says bounded)".into()];
     out
 }
